@@ -162,6 +162,14 @@ Fixpoint ins_rev (key : nat -> Z) (x : nat) (rl : list nat) : list nat :=
 Definition argsort (a : list Z) : list nat :=
   rev (fold_left (fun rl x => ins_rev (fun k => nth k a 0) x rl) (seq 0 (length a)) []).
 
+Definition argsort_z (a : list Z) : list Z := map Z.of_nat (argsort a).
+(* Spec: numpy.argsort(a, kind='stable') by rank: position i goes to slot
+   #{j : a[j] < a[i]} + #{j < i : a[j] = a[i]} *)
+Definition np_argsort (a : list Z) : list Z :=
+  let n := length a in
+  let rank := fun i => length (filter (fun j => (nth j a 0 <? nth i a 0) || ((nth j a 0 =? nth i a 0) && (j <? i)%nat)) (seq 0 n)) in
+  map (fun r => Z.of_nat (hd 0%nat (filter (fun i => (rank i =? r)%nat) (seq 0 n)))) (seq 0 n).
+
 (* the "insert" lambda (moveaxis.hpp:130-136): shift right everything from pos on (the last
    cell is dropped), then write val at pos; pos < len *)
 Definition insert_shift (pos : nat) (val : Z) (l : list Z) : list Z :=
